@@ -5,14 +5,20 @@
   the printed tokens are a rendering of the tree under the precedence table (every operand the grammar would regroup
   is parenthesised), so — by the round-trip theorem of C07 — they parse back to exactly that tree, and to no other.
 
-  `display_roundtrip_partial` is partial in two respects, both covered by the correspondence run:
-   * it is stated on tokens; that the printed *characters* (`Disp.showExpr`, compared with the real `to_string()`)
-     lex to `dispToks` is checked by the driver on every case (`display` command), not proved;
-   * float and decimal leaves carry the hypothesis `LitOK` (the library's shortest-digits printing and its parsing
-     are not modelled); integer, string, boolean and none leaves are proved (`int_leaf_ok`, `string_leaf_ok`).
+  `display_roundtrip_partial` is stated on tokens; `display_roundtrip_text` is the character-level statement: the
+  *characters* `Display` writes (`Disp.showExpr`, compared with the real `to_string()` on every correspondence case)
+  lex to exactly `dispToks` (`text_lexes_to_printed_tokens`, Lemmas/LexCompose + LexShow: the lexer is compositional
+  on printed text) and so parse back to the tree.  What remains hypothesis:
+   * float and decimal leaves: `LitOK` (the token converts back) and `LitText` (the text is one token) — the library's
+     shortest-digits printing and its parsing are not modelled; integer, string, boolean and none leaves are proved;
+   * names (`NameOK`): a letter, then identifier characters of which the first is not a digit, not a keyword — what the
+     lexer's IDENT rule produces, minus the corner `i5x` / `f1x` (identifiers by longest match, not covered).
+  Planning this proof exposed a genuine defect (`f .5` printed `(f.5)`, a float literal): repaired by fix commit 159fa22,
+  and the model's `needsParens` now has the same clause, without which `lexShow_index` does not go through.
   Non-finite floats are outside the hypothesis and really fail (`nonfinite_float_is_not_reparsed`, known finding).
 -/
 import RevalModel.Lemmas.DisplayRT
+import RevalModel.Lemmas.LexShow
 import RevalModel.Props.C07
 
 namespace Reval.C16
@@ -34,6 +40,28 @@ theorem reparsed_rendering_evaluates_identically (o : Oracle) (sf : F64 → Str)
     eval env rp e' st = eval env rp e st := by
   rw [display_roundtrip_tokens o sf e h] at hp
   cases hp; rfl
+
+/-- **character level**: the text `Display` writes lexes to exactly the printed token list -/
+theorem text_lexes_to_printed_tokens (sf : F64 → Str) (e : Expr) (ht : LexC.TextOK sf e) :
+    lex (showExpr sf e) = some (dispToks sf e) := LexC.lex_showExpr e ht
+
+/-- … hence `Expr::parse(e.to_string())`, on the model, is `e`: lexing, parsing with the parser's own fuel, end of
+    input — for every printable tree with well-formed names, of any size -/
+theorem display_roundtrip_text (o : Oracle) (sf : F64 → Str) (e : Expr) (hp : Printable o sf e) (ht : LexC.TextOK sf e) :
+    parseExprText o (showExpr sf e) = .ok e [] := by
+  simp only [parseExprText, text_lexes_to_printed_tokens sf e ht, display_roundtrip_tokens o sf e hp]
+
+/-- the repaired corner: a reference named `f` as the base of a numeric index is parenthesised, and the text parses
+    back (before fix 159fa22 the text was `(f.5)`, one float literal) -/
+theorem literal_prefix_name_is_parenthesised :
+    showExpr (fun _ => []) (.index (.ref ['f']) (.pos 5)) = "((f).5)".toList ∧
+    (match parseExprText Oracle.empty "((f).5)".toList with
+     | .ok (.index (.ref n) (.pos 5)) [] => n == ['f']
+     | _ => false) = true ∧
+    (match parseExprText Oracle.empty "(f.5)".toList with
+     | .ok (.lit (.float _)) [] => true
+     | _ => false) = true := by
+  refine ⟨by decide +kernel, by decide +kernel, by decide +kernel⟩
 
 /-- printing never changes grouping or operators: the printed tokens render the tree under the table, at every
     level the printed form can stand at (bitwise nodes bare, `-(…)`/`!(…)` unary, everything else atomic) -/
@@ -88,6 +116,11 @@ private def sample : Expr :=
 example (o : Oracle) (sf : F64 → Str) : Printable o sf sample := by
   simp only [sample, Printable, true_and]
   exact ⟨int_leaf_ok o sf 5 (by decide), string_leaf_ok o sf _, by decide⟩
+
+example (sf : F64 → Str) : LexC.TextOK sf sample := by
+  have ha : LexC.NameOK ['a'] := ⟨'a', [], rfl, by decide, by decide, (by intro a r e; cases e), by decide⟩
+  simp only [sample, LexC.TextOK, LexC.LitText, and_true, true_and]
+  exact ha
 
 /-- `a & (-(i5) | ("q\""".0))`: the right bitwise operand is parenthesised by the printer -/
 example (sf : F64 → Str) : dispToks sf sample =
